@@ -48,5 +48,7 @@ partial def showPV : PV → String
   | .list l => "L[" ++ ",".intercalate (l.map showPV) ++ "]"
   | .tup l => "T(" ++ ",".intercalate (l.map showPV) ++ ")"
   | .arr l => "A[" ++ ";".intercalate (l.map showPV) ++ "]"
+  | .set l => "S{" ++ ",".intercalate (l.map showPV) ++ "}"
+  | .dict ks vs => "D{" ++ ",".intercalate ((ks.zip vs).map fun kv => showPV kv.1 ++ ":" ++ showPV kv.2) ++ "}"
 
 end Dsw.Py
